@@ -516,6 +516,91 @@ fn one(i: usize, seed: u64, acc: &mut Acc) {
   cover(acc, &gw);
 }
 
+/// One target imported as an asset (`with { type: "text" | "bytes" }`) by one module and plainly by another,
+/// queued in either order, by URL, through a redirect or through a `jsr:` specifier. Only the part of the
+/// statement that no proviso touches is asserted: what the *plain* import reaches is present ("nothing
+/// reachable is absent") - the plain import's target is a module and that module's own dependency is loaded.
+fn asset_and_plain_case(i: usize, seed: u64, acc: &mut Acc) {
+  let mut rng = Rng::new(seed).fork(i as u64 ^ 0xC01_A55E7);
+  let target_kind = rng.below(3); // 0 url, 1 url behind a redirect, 2 jsr specifier
+  let attr = if rng.coin() { "text" } else { "bytes" };
+  let asset_first = rng.coin();
+  let plain_form = rng.below(3);
+  let same_module_extra = rng.chance(1, 3);
+  let (spec, final_url, dep_url): (String, String, String) = match target_kind {
+    0 => ("https://h.test/lib/mod.ts".into(), "https://h.test/lib/mod.ts".into(), "https://h.test/lib/dep.ts".into()),
+    1 => ("https://h.test/latest/mod.ts".into(), "https://h.test/lib/mod.ts".into(), "https://h.test/lib/dep.ts".into()),
+    _ => ("jsr:@s/a@1".into(), "https://jsr.io/@s/a/1.0.0/mod.ts".into(), "https://jsr.io/@s/a/1.0.0/dep.ts".into()),
+  };
+  let mut w = World::new();
+  let asset_src = format!("import t from \"{}\" with {{ type: \"{}\" }};\nexport const a = t;\n", spec, attr);
+  let plain_src = match plain_form {
+    0 => format!("import * as m from \"{}\";\nexport const b = m;\n", spec),
+    1 => format!("import \"{}\";\n", spec),
+    _ => format!("export * from \"{}\";\n", spec),
+  };
+  let (first, second) = if asset_first { (&asset_src, &plain_src) } else { (&plain_src, &asset_src) };
+  let mut main = String::from("import \"./first.ts\";\nimport \"./second.ts\";\n");
+  if same_module_extra {
+    main.push_str("import \"./third.ts\";\n");
+    w.add_text("file:///third.ts", &asset_src);
+  }
+  w.add_text("file:///main.ts", &main);
+  w.add_text("file:///first.ts", first);
+  w.add_text("file:///second.ts", second);
+  w.add_text(&final_url, "import \"./dep.ts\";\nexport const v = 1;\n");
+  w.add_text(&dep_url, "export const d = 1;\n");
+  if target_kind == 1 {
+    w.add(&spec, Resp::Redirect(final_url.clone()));
+  }
+  if target_kind == 2 {
+    w.add_text("https://jsr.io/@s/a/meta.json", r#"{ "versions": { "1.0.0": {} } }"#);
+    let entry = |body: &str| json!({"size": body.len(), "checksum": format!("sha256-{}", sha256_hex(body.as_bytes()))});
+    w.add_text(
+      "https://jsr.io/@s/a/1.0.0_meta.json",
+      &json!({"exports": {".": "./mod.ts"}, "manifest": {
+        "/mod.ts": entry("import \"./dep.ts\";\nexport const v = 1;\n"),
+        "/dep.ts": entry("export const d = 1;\n"),
+      }})
+      .to_string(),
+    );
+  }
+  let kind = *rng.pick(&[GraphKind::All, GraphKind::CodeOnly]);
+  let cfg = BuildCfg { kind, unstable_text: true, unstable_bytes: true, ..Default::default() };
+  let ctx = json!({"asset_and_plain": {"target": spec, "attribute": attr, "asset_import_first": asset_first, "plain_form": plain_form,
+    "a_third_module_with_the_asset_import": same_module_extra, "kind": format!("{:?}", kind)}, "world": w.to_json()});
+  acc.eval();
+  let loader = ScriptedLoader::new(&w);
+  let mut graph = ModuleGraph::new(kind);
+  let exec = if rng.coin() { Exec::Inline } else { Exec::Tokio };
+  if let Err(p) = catch(|| run_build(&mut graph, &["file:///main.ts".to_string()], &[], &loader, &cfg, None, exec, None)) {
+    acc.violation(format!("panic/{}", p.signature()), p.message, ctx);
+    return;
+  }
+  acc.count("asset_and_plain_worlds");
+  acc.count(&format!("asset_and_plain:{}", ["url", "redirected-url", "jsr"][target_kind]));
+  acc.nontrivial(hash64(&ctx.to_string()));
+  let target_class = match graph.try_get(&url(&spec)) {
+    Ok(Some(m)) => obs_module_class(m).to_string(),
+    Ok(None) => "absent".to_string(),
+    Err(e) => format!("error: {}", e),
+  };
+  let what = ["url", "redirected-url", "jsr"][target_kind];
+  if target_class == "external" || target_class == "absent" {
+    acc.violation(
+      format!("closure/plainly-imported-target-not-loaded-as-module/{}/{}", what, if asset_first { "asset-import-queued-first" } else { "plain-import-queued-first" }),
+      format!("{} is imported plainly by one module and as {} by another; it ended as {}", spec, attr, target_class),
+      ctx.clone(),
+    );
+  } else if graph.try_get(&url(&dep_url)).ok().flatten().is_none() {
+    acc.violation(
+      format!("closure/reachable-absent/behind-asset-and-plain-import/{}", what),
+      format!("{} (a dependency of the plainly imported {}) is not in the graph", dep_url, spec),
+      json!({"ctx": ctx, "graph": graph_json(&graph), "loads": loader.take_log().iter().map(|e| format!("{}{} {} -> {}", if e.ensure_cached { "ensure_cached " } else { "" }, e.cache_setting, e.specifier, e.answer.chars().take(50).collect::<String>())).collect::<Vec<_>>()}),
+    );
+  }
+}
+
 pub fn run(tier: Tier, seed: u64) -> i32 {
   let mut rep = Report::new("C01", tier, seed);
   rep.rule = "case = (generated world, graph kind, build options). The generator writes each module from an abstract list of import items \
@@ -523,6 +608,8 @@ pub fn run(tier: Tier, seed: u64) -> i32 {
     unparsable sources, bare specifiers, import-map-like resolver incl. types-only remaps and failures, configured type imports, several roots), so the ground truth does not come from any parser. \
     Two monitors: (a) closure model (DESIGN Appendix A) computing expected entries with class, redirects and per-module dependency records, compared field by field; \
     (b) model-free self-closure (followed targets present, nothing unreachable, redirects well-formed, no entry that is also a redirect source, no unfinished entry). \
+    (c) asset-and-plain worlds: one target imported with `type: text|bytes` by one module and plainly by another, queued in either order, by URL / behind a redirect / through a jsr: specifier: \
+    the plain import's target must end as a module and that module's own dependency must be in the graph (only \"nothing reachable is absent\" is asserted there). \
     non-trivial = >= 2 entries and >= 1 followed edge; distinct by (world, options)"
     .into();
   rep.assumptions = vec![
@@ -539,7 +626,10 @@ pub fn run(tier: Tier, seed: u64) -> i32 {
   }
   rep.floor("interaction:static+dynamic same specifier", 20);
   rep.floor("interaction:code+type same specifier", 20);
+  rep.floor("asset_and_plain:jsr", 100);
   let n = tier.pick(32000, 6400000);
-  let acc = par_run(n, |i, acc| one(i, seed, acc));
+  let mut acc = par_run(n, |i, acc| one(i, seed, acc));
+  let acc2 = par_run(tier.pick(1200, 24000), |i, acc| asset_and_plain_case(i, seed, acc));
+  acc.merge(acc2);
   rep.finish(acc)
 }
